@@ -1248,3 +1248,8 @@ rule("D8.writeln_display_summary",
      "writeln ! ( f , \"{}\" , summary ) ? ;",
      "summary . fmt ( f ) ? ; shim_fmt_str ( f , \"\\n\" ) ? ;",
      "writeln!(f, \"{}\", summary)?: Display of Summary (the inherent fmt proved in the unit) followed by a newline")
+
+rule("D6.string_ne_lit",
+     "action != $l:str",
+     "! shim_string_eq_str ( & action , $l )",
+     "String != \"literal\" (cross-type comparison, unspecified in vstd)")
